@@ -274,6 +274,32 @@ def _inline(flow, test, at, rename):
     return A.inline_temporaries(test, at, flow.fn)
 
 
+def check_no_defaults(ctx):
+    R = "C18-PRESENT"
+    ctx.rule(R, "the presence check sees the user's parameters only: between parsing the input and the `missing required parameter` check the constructor adds entries for "
+                "the offset priors it was given (under their own names) and nothing else - no constant-key store, setdefault or update with literal keys that would "
+                "supply a required parameter on the user's behalf.")
+    fn = ctx.prog.func(PR, "JokerPrior.__init__", R)
+    bad = []
+    names = set()
+    for s_ in A.walk_local(fn):
+        if isinstance(s_, ast.Assign) and isinstance(s_.targets[0], ast.Name) and isinstance(s_.value, (ast.Dict, ast.DictComp, ast.Call)) and s_.targets[0].id.endswith("pars"):
+            names.add(s_.targets[0].id)
+    names |= {"pars"}
+    for s_ in A.walk_local(fn):
+        if isinstance(s_, ast.Assign) and isinstance(s_.targets[0], ast.Subscript) and canon(s_.targets[0].value) in names and A.str_const(s_.targets[0].slice):
+            bad.append(s_)
+        if isinstance(s_, ast.Call) and isinstance(s_.func, ast.Attribute) and canon(s_.func.value) in names:
+            if s_.func.attr == "setdefault" and s_.args and A.str_const(s_.args[0]):
+                bad.append(s_)
+            if s_.func.attr == "update" and s_.args and isinstance(s_.args[0], ast.Dict) and any(k is not None and A.str_const(k) for k in s_.args[0].keys):
+                bad.append(s_)
+            if s_.func.attr == "update" and any(k.arg for k in s_.keywords):
+                bad.append(s_)
+    ctx.check(R, bad[0] if bad else fn, "no required parameter is supplied by the constructor itself", not bad,
+              "`%s` puts a parameter into the table the presence check reads: omitting it is no longer refused" % (A.unparse(bad[0])[:70] if bad else ""), key="defaults")
+
+
 def check_own(ctx):
     R = "C18-OWN"
     ctx.rule(R, "what the constructor validated is what the object keeps: self.v0_offsets and self.pars are containers built by the constructor itself (list(...) / dict(...) / "
@@ -471,10 +497,15 @@ def run(ctx):
     check_order(ctx)
     check_count(ctx)
     check_own(ctx)
+    check_no_defaults(ctx)
     check_global_units(ctx)
     from .C07 import _Relabel
     from .C08 import check_lock
     ctx.rule("C18-DATA", "the per-row survey labels the source count is taken from are built from the whole key of each source (np.full(len(d), k) in the default dtype, or the "
                          "equivalent list form): truncated or re-typed labels merge sources and defeat the count check (shared with C08-LOCK).")
     check_lock(_Relabel(ctx, {"C08-LOCK": "C18-DATA"}))
+    from .C15 import check_ivar
+    ctx.rule("C18-COV", "a source with a full covariance matrix is refused by the kernel because RVData.ivar is then a matrix: ivar keeps its documented form (1/err^2, or the "
+                        "inverse covariance MATRIX), so unsupported data cannot slip through as a diagonal (shared with C15-IVAR).")
+    check_ivar(_Relabel(ctx, {"C15-IVAR": "C18-COV"}))
     ctx.assume("pymc / astropy raise for unit-less or non-tensor objects inside library calls (exception types inside libraries are not decided)")
